@@ -830,8 +830,6 @@ def _discharge1(o, inputs, opts, scale=None):
     if z3.is_true(goal_s):
         return {"verdict": "unsat", "backend": "simplify", "seconds": 0.0}
     t0 = time.time()
-    if opts.get("sympy_ring", True) and _forked(lambda: ("unsat" if _sympy_identity(o.goal, list(o.axioms) + list(o.pc)) else "unknown", None, ""), opts.get("sympy_timeout_s", 30))[0] == "unsat":
-        return {"verdict": "unsat", "backend": "sympy-ring", "seconds": time.time() - t0}
 
     def with_model(solve):
         def job():
@@ -866,6 +864,9 @@ def _discharge1(o, inputs, opts, scale=None):
         except Exception:
             mv = None
         return {"verdict": "sat", "backend": "z3", "seconds": time.time() - t0, "model": mv}
+    if opts.get("sympy_ring", True) and z3.is_eq(o.goal) and z3.is_arith(o.goal.arg(0)) and \
+            _forked(lambda: ("unsat" if _sympy_identity(o.goal, list(o.axioms) + list(o.pc)) else "unknown", None, ""), opts.get("sympy_timeout_s", 30))[0] == "unsat":
+        return {"verdict": "unsat", "backend": "sympy-ring", "seconds": time.time() - t0}
     if o.axioms and opts.get("try_without_axioms", True):
         r0 = _forked(lambda: (_solve_z3(list(o.pc) + [z3.Not(o.goal)], min(tmo, 3000))[1], None, ""), 6)
         if r0[0] == "unsat":  # fewer hypotheses: still a proof
